@@ -285,6 +285,19 @@ def budget(f0, span, s_other):
     return f0 * (5e-12 + 1.2e-15 * 30 * span) + 4.5e-15 * s_other
 
 
+def directed_rphase(rnd, rdec):
+    """a reference phase of magnitude 1e9..1e12 (either sign) whose fraction, written with `rdec`
+    decimals, sits next to an integer or a half: .99999x, .999999, .00000x, .000001, .500000, .499999,
+    .000000 -- where a float64 of the whole numeral rounds across the integer although the text does not"""
+    q = 10 ** rdec
+    mag = rnd.randrange(10 ** 9, 10 ** rnd.choice([10, 11, 12, 12, 12]))
+    k = rnd.choice([1, 1, 1, 2, 3, 5, 10, rnd.randint(1, 60)])
+    k = min(k, q // 2 - 1) if q > 2 else 0
+    kind = rnd.choice(["below", "below", "below", "above", "above", "half", "below-half", "above-half", "zero"])
+    frac = {"below": q - k, "above": k, "half": q // 2, "below-half": q // 2 - k, "above-half": q // 2 + k, "zero": 0}[kind]
+    return rnd.choice([-1, 1]) * F(mag * q + frac % q, q)
+
+
 class PolyGen:
     """Seeded generator of one polyco text and its description (exact Fractions, for choosing times)."""
 
@@ -328,7 +341,7 @@ class PolyGen:
                 return tm, dec
         raise HarnessError("no layout found")
 
-    def make(self, family, wide=False, n=None, ncoeff=None, force=None):
+    def make(self, family, wide=False, n=None, ncoeff=None, force=None, directed=False):
         rnd = self.rnd
         n = n or rnd.choice([1, 1, 2, 2, 3, 3, 4, 5, 6])
         ncoeff = ncoeff or rnd.choice([1, 2, 2, 3, 4, 5, 6, 7, 8, 9, 10, 11, 12, 12, 13, 14, 15, 15])
@@ -373,6 +386,10 @@ class PolyGen:
                 g[0] = -(phi0 + 60 * Ftrue * (R + 2 * H))
             else:
                 g[0] = -60 * Ftrue * R * F(rnd.randint(1, 99), 100) + F(rnd.randrange(10 ** 6), 10 ** 6)
+            if directed or rnd.random() < 0.25:
+                # the phase at the first TMID lies just inside the six-decimal cell of a directed RPHASE
+                d = directed_rphase(rnd, 6)
+                g[0] = d + (1 if d > 0 else -1) * F(rnd.randint(1, 10 ** 12 - 1), 10 ** 19)
             for tm in tmids:
                 tau = (tm - tmids[0]) * 1440
                 c = []
@@ -392,6 +409,9 @@ class PolyGen:
                 rph = F(rnd.randrange(10 ** rnd.randint(0, 12)) * 10 ** rdec + rnd.randrange(10 ** rdec), 10 ** rdec)
                 if rnd.random() < 0.35:
                     rph = -rph
+                if rnd.random() < (0.6 if directed else 0.25) or (directed and tm == tmids[0]):
+                    rdec = rnd.choice([6, 6, 6, 6, 9, 5, 4, 7])
+                    rph = directed_rphase(rnd, rdec)
                 c = []
                 for j in range(ncoeff):
                     top = 0 if j == 0 else 3
@@ -754,7 +774,7 @@ def build_sessions(chk):
     for i in range(nfiles):
         fam = "A" if i % 3 == 0 else "B"
         wide = (i % 8 == 7)
-        text, desc = gen.make(fam, wide=wide)
+        text, desc = gen.make(fam, wide=wide, directed=(i % 2 == 1))
         if i % 10 == 4:
             desc["other_scale"] = True
         via = "file" if i % 4 == 1 else "stringio"
@@ -843,11 +863,11 @@ def run(chk):
     thorough = chk.tier == "thorough"
     check_leap_table()
     # 1. the span logic, exhaustively on the lattice; the two negative models must be rejected
-    r = tlc.run("MC_Polyco", "MC_Polyco_full.cfg" if thorough else "MC_Polyco_quick.cfg", timeout=2400)
+    r = tlc.run("MC_Polyco", "MC_Polyco_full.cfg" if thorough else "MC_Polyco_quick.cfg", timeout=2400, heap="2g")
     chk.mc_must_hold("MC_Polyco_" + ("full" if thorough else "quick"), r)
     chk.exhaustive = r.ok
     for cfg, inv in (("Neg_Polyco_notol.cfg", "MergeLoopIsDeclared"), ("Neg_Polyco_right.cfg", "SelectIsContaining")):
-        rn = tlc.run("MC_Polyco", cfg, workers=4, timeout=1200)
+        rn = tlc.run("MC_Polyco", cfg, workers=4, timeout=1200, heap="2g")
         chk.add_tlc(cfg, rn)
         if rn.violation != inv:
             chk.machinery_errors.append("negative model %s was not rejected by %s (got %r)" % (cfg, inv, rn.violation))
@@ -875,7 +895,7 @@ def run(chk):
     def job(b):
         flat = [e for evs in b for e in evs]
         return b, flat, run_batch(flat, "batch", timeout=1800 if thorough else 900)
-    with concurrent.futures.ThreadPoolExecutor(max_workers=12) as ex:
+    with concurrent.futures.ThreadPoolExecutor(max_workers=8) as ex:
         results = list(ex.map(job, batches))
     for bi, (b, flat, (rejected, r)) in enumerate(results):
         chk.add_tlc("trace:Trace_Polyco[batch %d, %d events]" % (bi, len(flat)), r)
@@ -949,6 +969,9 @@ def run(chk):
     chk.notes["population"] = {"entries": len(ents),
                                "negative_rphase_entries": sum(1 for e in ents if e["rphase"] < 0),
                                "negative_rphase_with_fraction": sum(1 for e in ents if e["rphase"] < 0 and e["rphase"] % 1 != 0),
+                               "rphase_1e9_to_1e12_fraction_next_to_integer_or_half": sum(
+                                   1 for e in ents if abs(e["rphase"]) >= 10 ** 9 and
+                                   min((e["rphase"] * 2) % 1, 1 - (e["rphase"] * 2) % 1) <= F(1, 5000)),
                                "ncoeff_1_texts": sum(1 for _, d, _ in sessions if d["ncoeff"] == 1),
                                "texts_with_tai_or_tt_times": sum(1 for _, d, _ in sessions if d.get("other_scale"))}
     chk.notes["tolerances"] = {"phase": "1e-8 cycle (events beyond the float64 budget of the code's poly(dt) are 'ambiguous:double-limit')",
